@@ -474,3 +474,9 @@ func c10SegmentScanTable(r *R) {
 			}
 		})
 }
+
+func init() {
+	// C08 quantifies over filesystems "starting from any generated manifest": the loader's per-stream state rule
+	// (C10-R7/R9, C09-R9) is a necessary condition of C08 as well.
+	extraRules["C08"] = append(extraRules["C08"], func(r *R) { loadManifestCarriedCells(r, "C08-R8") })
+}
